@@ -10,5 +10,9 @@ FirstDiff(a, b) ==
       D == {k \in 1..n : a[k] # b[k]}
   IN IF D # {} THEN CHOOSE k \in D : \A j \in D : k <= j
      ELSE IF Len(a) # Len(b) THEN n + 1 ELSE 0
+(* The offline front end is reached through workers that READ THE TWO FILES (file_patch_worker): what they print for a pair of files must be
+   the device-mode patch of the configurations those files hold NOW -- also when a file was rewritten in place since the last call --
+   and an input on which one front end fails must make the other fail too (no front end turns an error into an empty patch).            *)
+WorkerAgrees(workerLines, devLines) == workerLines = devLines
 SameOutputs(fileCmds, devCmds, fileDiff, devDiff) == fileCmds = devCmds /\ fileDiff = devDiff
 =============================================================================
